@@ -177,8 +177,10 @@ theorem enter_post {w w2 : World} {v : VehicleId} {next : Act} (h : enter env w 
                   have := lookup_replaceById_self hl
                   simpa [hid] using this
                 rw [this] at hv1; cases hv1
+                have hr2' : (veh.pos.cell == req.pos.cell && routeOk route veh.pos none) = true := by simpa using hr2
+                simp only [Bool.and_eq_true] at hr2'
                 exact ⟨veh, _, hveh, hv2, ⟨rfl, rfl, rfl, rfl⟩, rfl, rfl, req, hreq, by simpa using hr1,
-                  by simpa using hr2, by simpa using hg, by simpa using hdt⟩
+                  hr2'.2, by simpa using hg, by simpa using hdt⟩
   case reserveBase b =>
     split at h
     · cases h
